@@ -134,7 +134,10 @@ func c10Case(limit int, t byte, body int64, position int, truncated bool, cuts [
 		return c, true
 	}
 	msgs = append(msgs, m)
-	if strings.IndexByte("PBDECH", t) >= 0 || position >= 2 {
+	if (strings.IndexByte("PBDECH", t) >= 0 || position >= 2) && !(position == 3 && t == 'S' && body > int64(eff)) {
+		// (after an oversized Sync that arrived while discarding no further Sync is
+		// sent: once the server has answered ReadyForQuery it must serve the next
+		// query; otherwise the following Sync would hide a discard flag left set)
 		msgs = append(msgs, pgwire.FMsg{K: "S"})
 	}
 	if okp && t != 'X' {
@@ -267,7 +270,7 @@ func genC10(r *Rand, tier string) *Case {
 	return c
 }
 
-// c10Copy: an oversized CopyData inside COPY mode.
+// c10Copy: an oversized CopyData / CopyFail / foreign messages inside COPY mode.
 func c10Copy(r *Rand, L, eff int) *Case {
 	c := &Case{Variant: "copy", Server: ServerCfg{Limit: L}, Programs: map[string]*Program{probeKey: probeProgram()}}
 	c.Programs["cp"] = &Program{Stmts: []*StmtProg{{Cols: []ColSpec{{Name: "a", OID: pgwire.OIDText}}, Ops: []Op{{K: "copyin"}, {K: "copyall"}, {K: "retlast"}}}}}
@@ -275,7 +278,9 @@ func c10Copy(r *Rand, L, eff int) *Case {
 	if r.Bool() {
 		msgs = append(msgs, pgwire.FMsg{K: "d", Data: []byte("ok-chunk")})
 	}
-	msgs = append(msgs, pgwire.FMsg{K: "typed", T: 'd', Pad: int64(eff) + int64(r.PickInt(1, eff, 2*eff+1)), PadPat: injectedPattern()})
+	// the oversized message inside COPY mode: CopyData, CopyFail or a foreign message
+	ot := byte(r.Pick("d", "d", "f", "Q", "P", "S")[0])
+	msgs = append(msgs, pgwire.FMsg{K: "typed", T: ot, Pad: int64(eff) + int64(r.PickInt(1, eff, 2*eff+1)), PadPat: injectedPattern()})
 	msgs = append(msgs, pgwire.FMsg{K: "c"}, pgwire.FMsg{K: "Q", S1: probeKey})
 	c.Conns = []ConnCase{{Steps: []Step{{Msgs: []pgwire.FMsg{{K: "startup", KV: [][2]string{{"user", "u"}}}}}, {Msgs: msgs}}, Cuts: genCuts(r)}}
 	return c
@@ -308,7 +313,7 @@ func checkC10(x *Exec, c *Case) ([]Violation, bool) {
 		}
 		// allocation bound per step
 		if cs.cc.Measure {
-			bound := uint64(4*eff + 4<<20)
+			bound := uint64(4*eff + 16<<20)
 			for k, a := range cs.Alloc {
 				if k == 0 {
 					continue
@@ -371,7 +376,7 @@ func checkC10(x *Exec, c *Case) ([]Violation, bool) {
 func init() {
 	register(&Prop{
 		ID: "C10", Level: "exploration", QuickS: 25, ThoroughS: 420,
-		Rule:       "enumerated boundary grid (limits {5,16,64,100,1000,4095,4096,4097,65536} x message types {Q,P,B,D,E,C,H,S,X,d,c,f,unknown} x declared body {L-1,L,L+1} x position {first, after a simple cycle, inside a pipelined extended batch, while discarding after a failed extended message}; startup packets and password messages of body {L-1,L,L+1,2L}; declared lengths 0-3 for five message types and the startup packet) plus seeded cases (the same dimensions with bodies 2L, 2L+1, 64 MiB, 2^31-5, 2^32-5, fully supplied by a synthetic pattern that spells valid protocol messages or cut short, default limit for a small share, arbitrary segmentation of the skipped body, oversized CopyData inside COPY mode); judged by the size-rule model (the ReadyForQuery after the 54000 error is optional here), 'no callback sees a byte of a skipped body', a per-step allocation bound of 4L+4MiB measured from runtime/metrics, and recovery of the following message; non-trivial = the case contains a message at or beyond the boundary; distinct = distinct case content hashes",
+		Rule:       "enumerated boundary grid (limits {5,16,64,100,1000,4095,4096,4097,65536} x message types {Q,P,B,D,E,C,H,S,X,d,c,f,unknown} x declared body {L-1,L,L+1} x position {first, after a simple cycle, inside a pipelined extended batch, while discarding after a failed extended message}; startup packets and password messages of body {L-1,L,L+1,2L}; declared lengths 0-3 for five message types and the startup packet) plus seeded cases (the same dimensions with bodies 2L, 2L+1, 64 MiB, 2^31-5, 2^32-5, fully supplied by a synthetic pattern that spells valid protocol messages or cut short, default limit for a small share, arbitrary segmentation of the skipped body, oversized CopyData / CopyFail / foreign messages inside COPY mode); judged by the size-rule model (the ReadyForQuery after the 54000 error is optional here), 'no callback sees a byte of a skipped body', a per-step allocation bound of 4L+16MiB measured from runtime/metrics, and recovery of the following message; non-trivial = the case contains a message at or beyond the boundary; distinct = distinct case content hashes",
 		Exhaustive: "the boundary grid listed in the rule is enumerated completely in both tiers",
 		Components: e1Components, Assumptions: commonAssumptions,
 		Fixed: c10Fixed,
